@@ -309,6 +309,8 @@ def r3_truncate(ctx, F, names=("allocate_file_volatile_slice", "mark_dirty")):
     """Slice allocators hand out at most `count` bytes: a buffer longer than the remainder is cut with
     subslice(0, rem) on the `len > rem` edge, and rem decreases by the length handed out."""
     for nm in names:
+        if nm == "allocate_file_volatile_slice" and not [x for x in F.find(name=nm, self_adt=IOB)]:
+            nm = "consume"          # the one-caller helper merged back into IoBuffers::consume: the same loop is judged there
         b = F.method(IOB, nm)
         ctx.fn_seen(b)
         v = vf.VF(b)
@@ -426,7 +428,21 @@ def r4_counters(ctx, F):
         ctx.check("R4-counters", "consume/used-amount", "call_once(f" in x and x.endswith("?"), "consume marks `%s` as used, not the closure's result" % x, loc=mu[0].loc(), detail=x)
         ctx.check("R4-counters", "consume/same-amount", x == y, "consume marks `%s` dirty but `%s` used" % (y, x), loc=md[0].loc())
         al = [c for c in live_calls(b) if c.name == "allocate_file_volatile_slice"]
-        ctx.check("R4-counters", "consume/bounded", len(al) == 1 and vf.render(v.call_args(al[0])[1], b, short=True) == "count",
+        if not al and not [x for x in F.find(name="allocate_file_volatile_slice", self_adt=IOB)]:
+            # merged allocator: the truncating loop in consume itself starts from `count` (R3-truncate judges the loop)
+            ov_ = vf.VF(b, inline_depth=0, opaque_loops=True)
+            rl_ = [i for i in range(len(b.locals)) if b.local_name(i) == "rem"]
+            inits_ = []
+            for h_ in sorted(ov_.loop_headers()):
+                for li_ in rl_:
+                    try:
+                        inits_ += [vf.render(x[1], b, short=True, vfx=ov_) for x in ov_.loop_def(li_, h_)[0]]
+                    except Exception:
+                        pass
+            ctx.check("R4-counters", "consume/bounded", "count" in inits_, "consume does not bound the slices by `count` (merged allocator loop starts from %s)" % inits_, loc=b.loc())
+            al = None
+        if al is not None:
+          ctx.check("R4-counters", "consume/bounded", len(al) == 1 and vf.render(v.call_args(al[0])[1], b, short=True) == "count",
                   "consume does not bound the slices by `count`", loc=b.loc())
 
 
@@ -448,7 +464,7 @@ def r7_commit(ctx, F):
                 continue
             a = [vf.render(x, b, short=True, vfx=v) for x in v.call_args(c)]
             g = [(vf.render(x, b, short=True), l) for (x, l, u) in v.guards(c.bb)]
-            so = [l for (t, l) in g if t == "Vec::len(self.buf)"]
+            so = [l for (t, l) in g if t in ("Vec::len(self.buf)", "impl [T]::len(Vec::as_slice(self.buf))", "impl [T]::len(%s)" % own)]
             oo = [l for (t, l) in g if t.startswith("impl [T]::len(") and "other" in t]
             if c.name == "writev":
                 parts = "own+other" if a[1].startswith("[IoSlice::new(%s), IoSlice::new(" % own) and "other" in a[1] else a[1][:80]
